@@ -525,6 +525,11 @@ def run(R, tier, only=None, project=None):
             seen[lit.decode()] = v.v if isinstance(v, K) else repr(v)
         R.check(seen == {"MAXimum": hi, "MINimum": lo} and dflt_ok, "R07.3", "%s:keywords" % ity, "MAXimum -> %d, MINimum -> %d, other character data -> -104" % (hi, lo), "keyword table of the %s conversion is %s (expected MAXimum=%d, MINimum=%d, otherwise -104)" % (ity, seen, hi, lo), where=b.span)
 
+    # ---- R07.10 the typed pulls hand the conversion's verdict on: a literal the conversion refuses (-222, -138, -104) is the
+    # unit's error through next_data and next_optional_data alike, never "parameter absent" (seed C07-L)
+    if only is None:
+        from . import c06 as _c06
+        _c06.check_typed_pulls(R, "R07.10", ("DecimalNumericProgramData", "NonDecimalNumericProgramData", "DecimalNumericSuffixProgramData", "CharacterProgramData"))
     # ---- R07.9 the value a non-decimal literal carries is the lexer's: its whole-element table (shared with C04/R04.8) ------------
     if only is None:
         from . import lexer as LX
